@@ -96,6 +96,42 @@ def misuse(kind, a, b):
         m.st(y[0] >= b['z'])
     elif kind == 'ambiguity_after_constraints':
         m.ambiguity()
+    elif kind.startswith('robobj_'):
+        from rsome import ro, dro
+        lo = kind.endswith('_lo')
+        what = kind[len('robobj_'):-3]
+        if what == 'redefine':
+            target, v, zz = m, x, a['z']
+        else:
+            target = ro.Model() if a['front'] == 'ro' else dro.Model(2)
+            v = target.dvar(2)
+            zz = target.rvar()
+        expr = (v if what == 'nonscalar' else v[0]) + 0 * zz
+        if a['front'] == 'ro':
+            sset = (b['z'] >= 0, b['z'] <= 1) if what == 'foreign_set' else (zz >= 0, zz <= 1)
+            (target.minmax if lo else target.maxmin)(expr, *sset)
+        else:
+            if what == 'foreign_set':
+                fs = b['fs'] if b['front'] == 'dro' else [b['z'] >= 0, b['z'] <= 1]
+            elif what == 'redefine':
+                fs = a['fs']
+            else:
+                fs = target.ambiguity()
+                fs.suppset(zz >= 0, zz <= 1)
+            (target.minsup if lo else target.maxinf)(expr, fs)
+            if what == 'foreign_set':
+                # accepted by minsup/maxinf: no model may come out of it - formulation must refuse
+                try:
+                    target.st(v >= zz)
+                    target.st(v <= 5)
+                    target.solve(display=False)
+                except Exception as e:
+                    import traceback
+                    if not any('/rsome/' in fr.filename for fr in traceback.extract_tb(e.__traceback__)):
+                        raise
+                    raise LateRejection('%s: %s' % (type(e).__name__, e))
+                if target.solution is None:
+                    raise LateRejection('no solution: the model could not be solved')
     else:
         raise ValueError(kind)
 
